@@ -369,9 +369,9 @@ Record exc := mkX { x_owner : string; x_name : string; x_what : string; x_class 
 
 (* finding classes:
    1 function [length] differs from ES5        2 RegExp.prototype lacks the 15.10.7 properties
-   3 bound functions (15.3.4.5)                4 index properties of String objects reported non-enumerable
+   3 bound functions (15.3.4.5)                4 (repaired by 0d00771: String index properties are enumerable)
    5 Date.prototype time value is +0, not NaN  6 [[Class]] of the NativeError prototypes
-   7 getOwnPropertyDescriptor does not return  (class 7 has no table entry: see Corr.v / Check.broken_ok) *)
+   7 (repaired by c76d7ee: getOwnPropertyDescriptor of caller/stack) *)
 Definition exceptions : list exc :=
   [ mkX "Math" "atan2" "fn:length" 1;                      (* observed 1, ES5 15.8.2.5: 2 *)
     mkX "Number.prototype" "toString" "fn:length" 1;       (* observed 0, ES5 15.7.4.2: 1 *)
@@ -393,8 +393,6 @@ Definition exceptions : list exc :=
     mkX "spec" "boundbound" "fn:has-prototype" 3;
     mkX "spec.boundbound" "caller" "kind" 3;
     mkX "spec.boundbound" "arguments" "kind" 3;
-    mkX "spec.str" "0" "enumerable" 4;
-    mkX "spec.str" "1" "enumerable" 4;
     mkX "Date.prototype" "" "primitive" 5;
     mkX "EvalError.prototype" "" "class" 6;
     mkX "RangeError.prototype" "" "class" 6;
@@ -403,11 +401,7 @@ Definition exceptions : list exc :=
     mkX "TypeError.prototype" "" "class" 6;
     mkX "URIError.prototype" "" "class" 6 ].
 
-(* for-in computed from the reported attributes misses the index keys of a
-   String object (class 4); the real for-in statement shows them (Corr.v) *)
-Definition forin_incomplete : list string := ["spec.str"].
-
-(* own properties whose descriptor cannot be obtained (class 7): the [caller]
-   accessor otto puts on every script/host function object and the [stack]
-   accessor of Error instances *)
-Definition broken_names : list string := ["caller"; "stack"].
+(* own properties whose descriptor cannot be obtained: none since c76d7ee (the [caller]
+   accessor of function objects and the [stack] accessor of Error instances used to make
+   getOwnPropertyDescriptor fail a Go type assertion, finding class 7, repaired) *)
+Definition broken_names : list string := [].
